@@ -80,12 +80,38 @@ META2 = {
  "C20": ("delta terms of the Redfield tensor moved before the distributed loop: every rank adds them, the reduction counts them `size` times",
          "Redfield tensor in tensor form computed on more than one (simulated) process"),
 }
+
+META3 = {
+ "C01": ("TD Redfield operator form: Ld transformed with conjugated, un-reversed factors (rotates with the inverse transformation)",
+         "stR time_dependent + as_operators, three or more sites (non-symmetric eigenvector matrix), a basis change (get_RelaxationTensor leaves its own context); patch re-based after fix cca1d7a"),
+ "C02": ("operator-form branch called without the expansion order: always 4th order", "time-independent operator-form tensor, method short-exp-2 or short-exp-6"),
+ "C03": ("transition dipole operator created on demand from DD, which diagonalize() transforms in place", "build(), then diagonalize() (or first request inside a context), then the first get_TransitionDipoleMoment()"),
+ "C04": ("__exit__ uses the transpose of the transformation matrix instead of its inverse", "context operator with complex off-diagonal elements (unitary, not orthogonal transformation)"),
+ "C05": ("Hamiltonian.set_rwa reads the diagonal before entering its internal-units block", "set_rwa / Molecule.set_electronic_rwa called inside a non-internal units context"),
+ "C06": ("Redfield rate matrix zeroes every off-diagonal rate below 1e-6 1/fs, not only negative noise", "an uphill rate slower than ~1/ns (low temperature, steep funnel)"),
+ "C07": ("convert_2_tensor no longer sets _data_initialized, the flag TDRedfieldRelaxationTensor.transform() keys on", "TD operator-form tensor, convert_2_tensor(), then a basis change"),
+ "C08": ("elemental step propagates half of the matrix units and fills the rest by Hermitian conjugation", "generator that does not commute with Hermitian conjugation (non-symmetric pure-dephasing rates)"),
+ "C09": ("memoised underdamped component handed out without a copy", "UnderdampedBrownian component as first component of a function that is later added to in place"),
+ "C10": ("negative-shift branch of fc_factor swaps the whole vibrational signatures instead of one mode's quanta", "two or more displaced modes on one molecule (or a negative shift followed by a displaced mode)"),
+ "C11": ("supplied tensor transformed back before the lifetime rates (views for TD tensors) are used", "aggregate path with a time-dependent relaxation tensor"),
+ "C12": ("R2f* line shape taken from transition (f,i2) instead of (f,i3)", "mult=2, molecules with different Gaussian widths"),
+ "C13": ("Hermitian extension for upper-half axes decided by a stale _has_imag flag", "upper-half TimeAxis, complex values set through apply_to_data / .data assignment"),
+ "C14": ("strong-coupling thermal excited state reads site energies from the raw HH array (overwritten by diagonalize())", "thermal_excited_state, strong_coupling, finite T, after agg.diagonalize()"),
+ "C15": ("setDtRefinement divides the already refined step", "the same propagator asked twice for a refinement > 1"),
+ "C16": ("raising terms of the hierarchy accumulated with fancy-index += (repeated targets lose contributions)", ">= 2 baths, depth >= 2, a coherence between two excited sites (or any coupled aggregate); optical coherences unaffected"),
+ "C17": ("is_subset_of too strict by stride-1 points", "coarser axis with stride > 1 whose last point lies within the last stride-1 points of the fine axis"),
+ "C18": ("DFunction splines dropped from the pickle and rebuilt on load over the units-managed axis data", "DFunction on a FrequencyAxis with splines initialised, loaded inside a non-internal units context; only at() in spline mode is wrong"),
+ "C19": ("try/except around the whole loop of _signals_to_total: the first missing signal drops all later ones", "signals storage with an earlier signal missing (only NONR, only DC, REPH+DC), total read or reduction to off"),
+ "C20": ("enumerate() without start in the shared branch of block_distributed_list/array(return_index=True)", "more than one process, return_index=True, a non-empty block on rank > 0"),
+}
 pid = sys.argv[1]
 src = sys.argv[2] if len(sys.argv) > 2 else "/tmp/seed/" + pid
 dname = sys.argv[3] if len(sys.argv) > 3 else pid
 dst = "/verif/seeded/" + dname
-if dname != pid:
+if dname.endswith("-b"):
     META = META2
+elif dname.endswith("-c"):
+    META = META3
 os.makedirs(dst, exist_ok=True)
 for f in ("patch.diff", "demo.py"):
     shutil.copy(os.path.join(src, f), os.path.join(dst, f))
@@ -98,7 +124,7 @@ for tier in ("quick", "thorough"):
     res[tier] = {"demo_exit_unmodified": int(m.group(1)), "demo_exit_with_change": int(m.group(2)), "check_exit": int(m.group(3)), "first_clause": m.group(4).strip()[:160]}
     print(out[:200])
 head = subprocess.run(["git", "-C", "/repo", "rev-parse", "--short", "HEAD"], capture_output=True, text=True).stdout.strip()
-meta = {"property": pid, "origin": "fresh sub-agent given only the property text and a scratch worktree" + (" (second round: asked to aim at a different clause than the first seed)" if dname != pid else ""),
+meta = {"property": pid, "origin": "fresh sub-agent given only the property text and a scratch worktree" + (" (second round: asked to aim at a different clause than the first seed)" if dname.endswith("-b") else (" (third round: two earlier targets excluded, list of hard-to-notice kinds of change given)" if dname.endswith("-c") else "")),
         "what": META[pid][0], "needs_to_manifest": META[pid][1],
         "confirmed": {"repo_head": head, "patch_applies": True,
                       "pinned_suite_with_change": "148/148 stable tests pass (git -C /repo apply; ./baseline.sh; git -C /repo checkout -- .)",
